@@ -174,9 +174,24 @@ class Emitter:
                 self.w(f"{tgt} = T.b(_A, {tgt!r}, {v})" if T else f"{tgt} = {v}")
             elif tgt[0] in ("t", "*"):
                 v = self.e(ex)
-                self.w(f"{self.target_src(tgt)} = {v}")
                 if T:
-                    self.rebinds(self.target_names(tgt))
+                    # the value is unpacked first (into temporaries of the same shape); then every
+                    # name is reported and stored, left to right -- as a plain assignment is
+                    names = self.target_names(tgt)
+                    tmps = {n: self.tmp() for n in names}
+
+                    def mirror(t):
+                        if isinstance(t, str):
+                            return tmps[t]
+                        if t[0] == "*":
+                            return ["*", tmps[t[1]]]
+                        return ["t", [mirror(u) for u in t[1]]]
+
+                    self.w(f"{self.target_src(mirror(tgt))} = {v}")
+                    for n in names:
+                        self.w(f"{n} = T.b(_A, {n!r}, {tmps[n]})")
+                else:
+                    self.w(f"{self.target_src(tgt)} = {v}")
             elif tgt[0] == "attr":
                 v = self.e(ex)
                 name = f"{tgt[1]}.{tgt[2]}"
@@ -272,9 +287,9 @@ class Emitter:
             self.w(f"for {self.target_src(tgt)} in {it}:")
             self.ind += 1
             if T:
-                self.w(f"T.loop(_A, {names!r})")
                 self.w("try:")
                 self.ind += 1
+                self.w(f"T.loop(_A, {names!r})")
                 self.rebinds(names)
                 self.body(s[2])
                 self.ind -= 1
@@ -455,6 +470,7 @@ class Emitter:
             self.w(f"_A = T.enter({self.fname!r})")
             self.w("try:")
             self.ind += 1
+            self.w("T.entered(_A)")
             self.rebinds(self.param_order(fn))
             self.body(fn["body"])
             self.w("return T.value(_A, None)")
